@@ -78,6 +78,13 @@ def sig_with_meta(rng):
         meta['indexes'] = idx
     if rng.random() < 0.4:
         meta['unique_together'] = [('a', 'b')]
+    r = rng.random()
+    if r < 0.2:
+        # several groups, declared in an order that is not the sorted one: a list is stored as the list it is
+        meta['index_together'] = [('b', 'a'), ('a', 'b')]
+        meta['unique_together'] = [('b', 'a'), ('a', 'b')]
+    elif r < 0.35:
+        meta['index_together'] = [('b', 'a')]
     attrs = {'__module__': 'vapp.models',
              # column names beyond ASCII (Latin-1 range and above): legacy pickled rows store them as raw bytes
              'a': models.IntegerField(null=rng.random() < 0.5,
